@@ -10,3 +10,4 @@ import Dtr.Props.C20
 #print axioms Dtr.C20_blank_line_insert
 #print axioms Dtr.C20_bind_up_to_lines
 #print axioms Dtr.C20_run_ignores_lines
+#print axioms Dtr.C20_header_blanks
